@@ -85,6 +85,7 @@ thread_local! {
     static LOG: RefCell<ThreadLog> = RefCell::new(ThreadLog::default());
     static LAST_EMITTER: Cell<Option<u64>> = const { Cell::new(None) };
     static LAST_FILTER: Cell<Option<u64>> = const { Cell::new(None) };
+    static LAST_FLUSH: Cell<Option<u64>> = const { Cell::new(None) };
     static NANOS: Cell<u32> = const { Cell::new(0) };
 }
 
@@ -127,6 +128,7 @@ impl Emitter for TEmitter {
 
     fn blocking_flush(&self, _: Duration) -> bool {
         used(FLUSH, self.tag);
+        LAST_FLUSH.with(|c| c.set(Some(self.tag)));
         true
     }
 }
@@ -769,8 +771,516 @@ fn run_round(r: &mut Report, seed: u64, round: u64, sz: &Sizes, on_static: bool)
     }
 }
 
+// ---------------------------------------------------------------------------
+// the SHARED slot through the root crate's convenience accessors: one process = one race
+// ---------------------------------------------------------------------------
+//
+// `emit::emitter()`, `emit::filter()`, `emit::ctxt()`, `emit::clock()`, `emit::rng()` and
+// `emit::blocking_flush(..)` read the process-wide shared slot. It can be initialised once per
+// process, so the monitor re-executes itself (`--child-shared-race <k>`) once per race. A child:
+// N poller threads spin on the accessors from a common start gate (each call probes the ONE component
+// it returned and is classified by three flags read around it: had any initialisation started when
+// it finished, had a successful `init()` returned when it started, had any thread already seen a
+// live component when it started); the main thread uses the empty slot first (accessors, macros,
+// flush), opens the gate and initialises through `emit::setup()..init()` / `try_init()` after a seeded
+// delay, in half of the children against a rival initialiser thread; afterwards the pollers, the main
+// thread and a freshly spawned thread sweep all six accessors again and the main thread emits through
+// the macros. The child prints one `@@CHILD {json}` line; the parent merges and judges.
+//
+// Rules (the statement, applied to the accessors):
+// * a call that FINISHED before any initialisation started is inert: no clock reading, no rng output,
+//   no ambient property, the event handed to the emitter is dropped, the filter is nobody's, flush is
+//   true and reaches nobody's emitter;
+// * a call that STARTED after a successful `init()` had returned shows the winner's component - on
+//   every thread, including the pollers that polled during the initialisation
+//   (`stale-empty-after-init:<accessor>:<role>`);
+// * per thread monotonic: once a thread has seen a live component through ANY accessor it never sees an
+//   inert one again; and across threads: nor does any call that started after some thread had finished
+//   seeing one;
+// * every live component ever returned belongs to the one attempt that was told it succeeded; no
+//   component of a loser is ever called; nothing panics.
+//
+// How many children really raced is measured, not assumed: a call OVERLAPPED the initialisation window
+// iff no successful init had returned when it started and an attempt had started when it finished.
+
+const ACCESSOR: [&str; 6] = ["emitter", "filter", "ctxt", "clock", "rng", "blocking_flush"];
+
+static SH_STARTED: AtomicUsize = AtomicUsize::new(0);
+static SH_WON: AtomicBool = AtomicBool::new(false);
+static SH_SEEN: AtomicBool = AtomicBool::new(false);
+
+/// One call of accessor `k`: the configuration whose component answered (`None` = inert) and, for
+/// the flush, its result.
+fn accessor_call(k: usize) -> (Option<u64>, Option<bool>) {
+    match k {
+        0 => {
+            let evt = emit::evt!("c20 probe");
+            LAST_EMITTER.with(|c| c.set(None));
+            emit::emitter().emit(&evt);
+            (LAST_EMITTER.with(|c| c.get()), None)
+        }
+        1 => {
+            let evt = emit::evt!("c20 probe");
+            LAST_FILTER.with(|c| c.set(None));
+            let _ = emit::filter().matches(&evt);
+            (LAST_FILTER.with(|c| c.get()), None)
+        }
+        2 => (emit::ctxt().with_current(|p| p.pull::<u64, _>("who")), None),
+        3 => (emit::clock().now().map(|t| t.to_unix().as_secs()), None),
+        4 => (emit::Rng::gen_u64(&emit::rng()), None),
+        _ => {
+            LAST_FLUSH.with(|c| c.set(None));
+            let ok = emit::blocking_flush(Duration::from_millis(1));
+            (LAST_FLUSH.with(|c| c.get()), Some(ok))
+        }
+    }
+}
+
+#[derive(Default, Clone)]
+struct AccStat {
+    calls: u64,
+    inert: u64,
+    live: u64,
+    before: u64,
+    after: u64,
+    overlap: u64,
+    overlap_inert: u64,
+    overlap_live: u64,
+}
+
+struct ShThread {
+    role: &'static str,
+    idx: usize,
+    stats: [AccStat; 6],
+    tags: BTreeSet<(usize, u64)>,
+    viol: Vec<(String, String)>,
+    seen_live: bool,
+    saw_inert: bool,
+    current: usize,
+    log: ThreadLog,
+}
+
+impl ShThread {
+    fn new(role: &'static str, idx: usize) -> ShThread {
+        ShThread { role, idx, stats: Default::default(), tags: BTreeSet::new(), viol: Vec::new(), seen_live: false, saw_inert: false, current: 0, log: ThreadLog::default() }
+    }
+
+    fn bad(&mut self, sig: String, what: String) {
+        if self.viol.len() < 12 && !self.viol.iter().any(|(s, _)| *s == sig) {
+            self.viol.push((sig, what));
+        }
+    }
+
+    /// One accessor call, classified and judged against the thread's own history.
+    fn call(&mut self, k: usize) {
+        self.current = k;
+        let seen0 = SH_SEEN.load(Ordering::SeqCst);
+        let won0 = SH_WON.load(Ordering::SeqCst);
+        let (view, flush) = accessor_call(k);
+        let started1 = SH_STARTED.load(Ordering::SeqCst);
+        let (acc, role, idx) = (ACCESSOR[k], self.role, self.idx);
+        let st = &mut self.stats[k];
+        st.calls += 1;
+        match view {
+            Some(tag) => {
+                st.live += 1;
+                self.tags.insert((k, tag));
+                if !seen0 {
+                    SH_SEEN.store(true, Ordering::SeqCst);
+                }
+            }
+            None => st.inert += 1,
+        }
+        if started1 == 0 {
+            st.before += 1;
+            if let Some(tag) = view {
+                self.bad(format!("C20:shared-accessor:not-inert-before-init:{}", acc), format!("{} {}: emit::{}() answered with the component of configuration {} before any initialisation had started", role, idx, acc, tag));
+            }
+            if flush == Some(false) {
+                self.bad("C20:shared-accessor:flush-false-before-init".into(), format!("{} {}: emit::blocking_flush on the uninitialised shared slot returned false", role, idx));
+            }
+        } else if won0 {
+            self.stats[k].after += 1;
+            if view.is_none() {
+                self.bad(
+                    format!("C20:shared-accessor:stale-empty-after-init:{}:{}", acc, role),
+                    format!("{} {}: a call of emit::{}() that started after the successful init() had returned still answered with the inert component (this thread had {}seen a live component before)", role, idx, acc, if self.seen_live { "" } else { "not " }),
+                );
+            }
+        } else {
+            let st = &mut self.stats[k];
+            st.overlap += 1;
+            if view.is_some() {
+                st.overlap_live += 1;
+            } else {
+                st.overlap_inert += 1;
+            }
+        }
+        if view.is_none() && !won0 {
+            if self.seen_live {
+                self.bad(
+                    format!("C20:shared-accessor:regressed:same-thread:{}:{}", acc, role),
+                    format!("{} {}: after this thread had seen a live component through an accessor, emit::{}() answered with the inert one", role, idx, acc),
+                );
+            } else if seen0 {
+                self.bad(
+                    format!("C20:shared-accessor:regressed:other-thread:{}:{}", acc, role),
+                    format!("{} {}: a call of emit::{}() that started after another thread had finished seeing a live component answered with the inert one", role, idx, acc),
+                );
+            }
+        }
+        if view.is_some() {
+            self.seen_live = true;
+        } else {
+            self.saw_inert = true;
+        }
+    }
+
+    fn sweep(&mut self, times: usize) {
+        for _ in 0..times {
+            for k in 0..6 {
+                self.call(k);
+            }
+        }
+    }
+}
+
+/// Run `f` over the thread's record, turning a panic into a violation that names the accessor.
+fn sh_guarded(mut t: ShThread, f: impl FnOnce(&mut ShThread)) -> ShThread {
+    if let Err(m) = catch(|| f(&mut t)) {
+        let (acc, role) = (ACCESSOR[t.current], t.role);
+        t.viol.push((format!("C20:shared-accessor:panic:{}:{}", acc, role), format!("{} {}: emit::{}() (or using what it returned) panicked: {}", role, t.idx, acc, m)));
+    }
+    t.log = take_log();
+    t
+}
+
+fn shared_race_child(seed: u64, k: u64) {
+    install_quiet_panic_hook();
+    let mut g = Rng::stream(seed, &[20, 7, k]);
+    let n_pollers = g.range(2, 7) as usize;
+    let rival = g.bool();
+    let via_try = [g.bool(), g.bool()];
+    let delays: [u64; 2] = [*g.pick(&[200u64, 2_000, 20_000, 200_000, 2_000_000]), *g.pick(&[200u64, 2_000, 20_000, 200_000, 2_000_000])];
+    let focus: Vec<Option<usize>> = (0..n_pollers).map(|_| if g.chance(1, 2) { Some(g.usize(6)) } else { None }).collect();
+    let t0 = std::time::Instant::now();
+
+    // a process that cannot finish is reported as such (never as a verdict)
+    std::thread::spawn(move || {
+        std::thread::sleep(Duration::from_secs(40));
+        println!("@@CHILD {}", json!({"k": k, "gave_up": true}));
+        std::process::exit(3);
+    });
+
+    let _ = take_log();
+    // ---- the empty shared slot, before anything else exists ----
+    let mut pre = sh_guarded(ShThread::new("main-before", 0), |t| {
+        t.sweep(2);
+        t.current = 0;
+        let id = 7u64;
+        emit::emit!("c20 shared pre {id}", id);
+        let (mut guard, frame) = emit::new_span!("c20 shared pre span {id}", id);
+        frame.call(move || guard.start());
+    });
+    if !pre.log.delivered.is_empty() || !pre.log.uses.is_empty() {
+        pre.viol.push(("C20:shared-accessor:before-init:something-delivered".into(), format!("{} event(s) delivered / {} component call(s) through the shared slot before any initialiser existed", pre.log.delivered.len(), pre.log.uses.len())));
+    }
+
+    let gate = Gate { ready: AtomicUsize::new(0), go: AtomicBool::new(false) };
+    let tags = [tag_of(k, 0), tag_of(k, 1)];
+    let attempt = |i: usize| -> Result<bool, String> {
+        let tag = tags[i];
+        let setup = emit::setup().emit_to(TEmitter { tag }).emit_when(TFilter { tag }).with_ctxt(TCtxt { tag }).with_clock(TClock { tag }).with_rng(TRng { tag });
+        for _ in 0..delays[i] {
+            std::hint::spin_loop();
+        }
+        SH_STARTED.fetch_add(1, Ordering::SeqCst);
+        let res = catch(|| {
+            if via_try[i] {
+                setup.try_init().is_some()
+            } else {
+                let _ = setup.init();
+                true
+            }
+        });
+        if let Ok(true) = res {
+            SH_WON.store(true, Ordering::SeqCst);
+        }
+        res
+    };
+
+    let (mut threads, outcomes): (Vec<ShThread>, Vec<Result<bool, String>>) = std::thread::scope(|s| {
+        let mut handles = Vec::new();
+        for (p, focus) in focus.iter().enumerate() {
+            let gate = &gate;
+            let focus = *focus;
+            handles.push(s.spawn(move || {
+                sh_guarded(ShThread::new("poller", p), |t| {
+                    gate.wait();
+                    let mut n = 0u64;
+                    // spin until a successful init() has returned (logical cap: no verdict depends on it)
+                    while !SH_WON.load(Ordering::SeqCst) && n < 400_000_000 {
+                        t.call(focus.unwrap_or((n % 6) as usize));
+                        n += 1;
+                    }
+                    t.sweep(3);
+                })
+            }));
+        }
+        let rival_h = if rival {
+            let gate = &gate;
+            let attempt = &attempt;
+            Some(s.spawn(move || {
+                gate.wait();
+                let r = attempt(1);
+                (r, sh_guarded(ShThread::new("rival", 0), |t| t.sweep(2)))
+            }))
+        } else {
+            None
+        };
+        gate.open(n_pollers + rival as usize);
+        let mine = attempt(0);
+        let mut outcomes = vec![mine];
+        let mut threads: Vec<ShThread> = Vec::new();
+        if let Some(h) = rival_h {
+            let (r, t) = h.join().expect("rival thread catches its own panics");
+            outcomes.push(r);
+            threads.push(t);
+        }
+        // if nobody won (only possible when something is badly wrong) release the pollers anyway
+        let nobody = !outcomes.iter().any(|o| matches!(o, Ok(true)));
+        if nobody {
+            SH_WON.store(true, Ordering::SeqCst);
+        }
+        threads.push(sh_guarded(ShThread::new("main", 0), |t| {
+            t.sweep(3);
+            t.current = 0;
+            let id = 9u64;
+            emit::emit!("c20 shared event {id}", id);
+        }));
+        threads.push(
+            s.spawn(|| sh_guarded(ShThread::new("fresh-thread", 0), |t| t.sweep(3))).join().expect("fresh thread catches its own panics"),
+        );
+        for h in handles {
+            threads.push(h.join().expect("poller threads catch their own panics"));
+        }
+        (threads, outcomes)
+    });
+    threads.insert(0, pre);
+
+    // ---- judge ----
+    let mut viol: Vec<(String, String)> = Vec::new();
+    let winners: Vec<usize> = outcomes.iter().enumerate().filter(|(_, o)| matches!(o, Ok(true))).map(|(i, _)| i).collect();
+    if winners.len() != 1 {
+        viol.push((if winners.is_empty() { "C20:shared-accessor:winners:none".into() } else { "C20:shared-accessor:winners:more-than-one".into() }, format!("{} of {} initialisations of the shared slot were told they succeeded: {:?}", winners.len(), outcomes.len(), outcomes)));
+    }
+    for (i, o) in outcomes.iter().enumerate() {
+        if let Err(m) = o {
+            // the panicking form may only panic when it lost
+            if via_try[i] || winners.is_empty() || winners == [i] {
+                viol.push((format!("C20:shared-accessor:{}:panicked", if via_try[i] { "try_init" } else { "init" }), format!("initialiser {} panicked: {}", i, m)));
+            }
+        }
+    }
+    let w = winners.first().map(|i| tags[*i]);
+    let mut both = 0u64;
+    let mut delivered_after = 0u64;
+    for t in &mut threads {
+        for (acc, tag) in t.tags.clone() {
+            if Some(tag) != w {
+                t.bad(format!("C20:shared-accessor:not-the-winner:{}:{}", ACCESSOR[acc], t.role), format!("{} {}: emit::{}() answered with the component of configuration {} but the attempt that succeeded was {:?}", t.role, t.idx, ACCESSOR[acc], tag, w));
+            }
+        }
+        for ((component, tag), n) in &t.log.uses {
+            if Some(*tag) != w {
+                let sig = format!("C20:shared-accessor:loser-component-called:{}", COMPONENT[*component as usize]);
+                let what = format!("{} {}: the {} of configuration {} was called {} time(s) but the winner is {:?}", t.role, t.idx, COMPONENT[*component as usize], tag, n, w);
+                t.viol.push((sig, what));
+            }
+        }
+        for d in &t.log.delivered {
+            if Some(d.tag) != w {
+                t.viol.push(("C20:shared-accessor:event-delivered-to-loser".into(), format!("{} {}: event {:?} was delivered to the emitter of configuration {} but the winner is {:?}", t.role, t.idx, d.msg, d.tag, w)));
+            }
+            if d.msg.starts_with("c20 shared event") {
+                delivered_after += 1;
+                let ok_secs = matches!(d.secs, Some((None, end)) if Some(end) == w);
+                if d.who != w || !ok_secs {
+                    t.viol.push(("C20:shared-accessor:macro-event:components-of-other-configuration".into(), format!("the event emitted through the macros after init carries who={:?} extent={:?}, winner {:?}", d.who, d.secs, w)));
+                }
+            }
+            if d.msg.starts_with("c20 shared pre") {
+                t.viol.push(("C20:shared-accessor:before-init:event-delivered".into(), format!("an event emitted before any initialisation was delivered: {:?}", d.msg)));
+            }
+        }
+        if t.role == "poller" && t.saw_inert && t.seen_live {
+            both += 1;
+        }
+        viol.append(&mut t.viol);
+    }
+    if winners.len() == 1 && delivered_after != 1 {
+        viol.push(("C20:shared-accessor:after-init:macro-event-not-delivered-once".into(), format!("the event emitted through emit::emit! after init() returned was delivered {} times", delivered_after)));
+    }
+    let col = |f: &dyn Fn(&AccStat) -> u64, roles: &[&str]| -> Vec<u64> { (0..6).map(|k| threads.iter().filter(|t| roles.contains(&t.role)).map(|t| f(&t.stats[k])).sum()).collect() };
+    let all = ["main-before", "poller", "rival", "main", "fresh-thread"];
+    let viol_json: Vec<Json> = viol.iter().map(|(s, w)| json!([s, w])).collect();
+    println!(
+        "@@CHILD {}",
+        json!({
+            "k": k, "pollers": n_pollers, "rival": rival, "via": via_try.iter().map(|t| if *t { "try_init" } else { "init" }).collect::<Vec<_>>(),
+            "delays": delays, "focus": focus, "winner": winners.first(),
+            "calls": col(&|s| s.calls, &all), "before": col(&|s| s.before, &all), "after": col(&|s| s.after, &all),
+            "after_pollers": col(&|s| s.after, &["poller"]),
+            "overlap": col(&|s| s.overlap, &all), "overlap_inert": col(&|s| s.overlap_inert, &all), "overlap_live": col(&|s| s.overlap_live, &all),
+            "pollers_that_saw_both": both, "viol": viol_json, "wall_ms": t0.elapsed().as_millis() as u64,
+        })
+    );
+    use std::io::Write;
+    let _ = std::io::stdout().flush();
+    std::process::exit(0);
+}
+
+/// Parent side: run `n` races (one child process each, a few at a time), merge and judge.
+fn run_shared_children(r: &mut Report, args: &Args, n: u64, ks: Option<Vec<u64>>) {
+    let exe = match std::env::current_exe() {
+        Ok(e) => e,
+        Err(e) => {
+            r.inconclusive(format!("shared-accessor lane: no current_exe: {}", e));
+            return;
+        }
+    };
+    let ks: Vec<u64> = ks.unwrap_or_else(|| (0..n).collect());
+    let cores = std::thread::available_parallelism().map(|n| n.get()).unwrap_or(4);
+    // every child runs 4-10 threads: a few at a time so that the pollers really run in parallel
+    let par = (cores / 4).clamp(1, 6);
+    let next = AtomicUsize::new(0);
+    let outs: Vec<(u64, Result<std::process::Output, String>)> = std::thread::scope(|s| {
+        let hs: Vec<_> = (0..par)
+            .map(|_| {
+                let (next, ks, exe) = (&next, &ks, &exe);
+                s.spawn(move || {
+                    let mut mine = Vec::new();
+                    loop {
+                        let i = next.fetch_add(1, Ordering::SeqCst);
+                        if i >= ks.len() {
+                            break;
+                        }
+                        let k = ks[i];
+                        let out = std::process::Command::new(exe)
+                            .args(["--child-shared-race", &k.to_string(), "--seed", &args.seed.to_string(), "--lane", &args.lane])
+                            .stdin(std::process::Stdio::null())
+                            .output()
+                            .map_err(|e| e.to_string());
+                        mine.push((k, out));
+                    }
+                    mine
+                })
+            })
+            .collect();
+        hs.into_iter().flat_map(|h| h.join().expect("spawner")).collect()
+    });
+
+    let mut overlapped_children = 0u64;
+    let mut overlapping_calls = [0u64; 6];
+    let mut children = 0u64;
+    for (k, out) in outs {
+        let case = json!({"seed": args.seed, "shared_child": k});
+        let out = match out {
+            Ok(o) => o,
+            Err(e) => {
+                r.inconclusive(format!("shared-accessor lane: could not spawn child {}: {}", k, e));
+                continue;
+            }
+        };
+        let stdout = String::from_utf8_lossy(&out.stdout);
+        let stderr = String::from_utf8_lossy(&out.stderr);
+        if stderr.contains("ThreadSanitizer") || stderr.contains("AddressSanitizer") {
+            // let the driver see the sanitizer's report
+            eprintln!("{}", stderr);
+        }
+        let line = stdout.lines().find_map(|l| l.strip_prefix("@@CHILD "));
+        let v: Option<Json> = line.and_then(|l| serde_json::from_str(l).ok());
+        let v = match v {
+            Some(v) if v.get("gave_up").is_none() && out.status.success() => v,
+            Some(_) => {
+                r.inconclusive(format!("shared-accessor lane: child {} hit its 40 s watchdog", k));
+                continue;
+            }
+            None => {
+                // the child died: a panic raised inside emit is an observation, anything else is not a verdict
+                let locs: Vec<&str> = stderr.lines().filter_map(|l| l.strip_prefix("@@REPO-PANIC ")).collect();
+                let last_panic = stderr.lines().filter(|l| l.contains("panicked at")).last().unwrap_or("");
+                if let Some(loc) = locs.last().filter(|_| last_panic.contains("repo/")) {
+                    let file = loc.rsplit_once("repo/").map(|(_, f)| f).unwrap_or(loc);
+                    let file = file.split(':').next().unwrap_or(file);
+                    r.eval();
+                    r.observe("shared-accessor:children", 1);
+                    r.violation(
+                        &format!("C20:shared-accessor:child-died:panic-in:{}", file),
+                        &format!("race process {} died ({:?}) of a panic raised inside emit: {}", k, out.status, last_panic),
+                        json!({"seed": args.seed, "shared_child": k, "stderr_tail": stderr.chars().rev().take(1500).collect::<String>().chars().rev().collect::<String>()}),
+                    );
+                } else {
+                    r.inconclusive(format!("shared-accessor lane: child {} exited {:?} without a result: {}", k, out.status, stderr.lines().last().unwrap_or("")));
+                }
+                continue;
+            }
+        };
+        children += 1;
+        r.eval();
+        r.observe("shared-accessor:children", 1);
+        let arr = |key: &str| -> Vec<u64> { v.get(key).and_then(|a| a.as_array()).map(|a| a.iter().map(|x| x.as_u64().unwrap_or(0)).collect()).unwrap_or_else(|| vec![0; 6]) };
+        let (calls, before, after, after_p, ov, ovi, ovl) = (arr("calls"), arr("before"), arr("after"), arr("after_pollers"), arr("overlap"), arr("overlap_inert"), arr("overlap_live"));
+        for a in 0..6 {
+            r.observe(&format!("shared-accessor:calls:{}", ACCESSOR[a]), calls[a]);
+            r.observe(&format!("shared-accessor:calls-finished-before-any-init:{}", ACCESSOR[a]), before[a]);
+            r.observe(&format!("shared-accessor:calls-started-after-init-returned:{}", ACCESSOR[a]), after[a]);
+            r.observe(&format!("shared-accessor:calls-started-after-init-returned:by-pollers:{}", ACCESSOR[a]), after_p[a]);
+            r.observe(&format!("shared-accessor:calls-overlapping-init:{}", ACCESSOR[a]), ov[a]);
+            overlapping_calls[a] += ov[a];
+        }
+        r.observe("shared-accessor:calls-overlapping-init:answered-inert", ovi.iter().sum());
+        r.observe("shared-accessor:calls-overlapping-init:answered-live", ovl.iter().sum());
+        let both = v.get("pollers_that_saw_both").and_then(|x| x.as_u64()).unwrap_or(0);
+        r.observe("shared-accessor:pollers-that-saw-inert-then-live", both);
+        let n_ov: u64 = ov.iter().sum();
+        if n_ov > 0 {
+            overlapped_children += 1;
+            r.observe("shared-accessor:children-with-calls-overlapping-init", 1);
+            let which: Vec<usize> = (0..6).filter(|a| ov[*a] > 0).collect();
+            r.nontrivial(&("shared-accessor", v.get("pollers").and_then(|x| x.as_u64()), v.get("rival").and_then(|x| x.as_bool()), v.get("winner").and_then(|x| x.as_u64()), which, both.min(3)));
+            if r.wants_sample() && k % 7 == 0 {
+                let mut s = v.clone();
+                s["viol"] = json!([]);
+                r.sample(|| json!({"shared_accessor_race": s}));
+            }
+        }
+        if let Some(vs) = v.get("viol").and_then(|x| x.as_array()) {
+            for x in vs {
+                let sig = x.get(0).and_then(|s| s.as_str()).unwrap_or("C20:shared-accessor:unparsed");
+                let what = x.get(1).and_then(|s| s.as_str()).unwrap_or("");
+                let mut c = case.clone();
+                c["child"] = json!({"pollers": v.get("pollers"), "rival": v.get("rival"), "via": v.get("via"), "delays": v.get("delays"), "focus": v.get("focus"), "winner": v.get("winner"), "overlap": v.get("overlap")});
+                r.violation(sig, what, c);
+            }
+        }
+    }
+    r.set(
+        "shared_accessor_races",
+        json!({"children": children, "children_with_accessor_calls_overlapping_the_init_window": overlapped_children,
+               "overlapping_calls_per_accessor": ACCESSOR.iter().zip(overlapping_calls.iter()).map(|(a, n)| json!([a, n])).collect::<Vec<_>>()}),
+    );
+    if children > 0 && overlapped_children == 0 {
+        r.inconclusive("shared-accessor lane: no child had an accessor call overlapping the initialisation window");
+    }
+}
+
 fn main() {
     let args = Args::parse();
+    if let Some(k) = args.get("child-shared-race") {
+        shared_race_child(args.seed, k.parse().unwrap_or(0));
+        return;
+    }
     let mut r = Report::new(
         "C20",
         &args,
@@ -792,6 +1302,13 @@ fn main() {
         let u = |k: &str, d: u64| case.get(k).and_then(|v| v.as_u64()).unwrap_or(d);
         let sz = Sizes { max_init: u("max_init", sz.max_init), max_obs: u("max_obs", sz.max_obs), spin_cap: u("spin_cap", sz.spin_cap), post_steps: u("post_steps", sz.post_steps) };
         // schedules are not replayable: repeat the round
+        if let Some(k) = case.get("shared_child").and_then(|v| v.as_u64()) {
+            // one process = one race; schedules are not replayable: repeat the same child
+            let mut a = args.clone();
+            a.seed = seed;
+            run_shared_children(&mut r, &a, 0, Some(vec![k; 24]));
+            std::process::exit(r.finish());
+        }
         let on_static = case.get("static_shared_slot").and_then(|v| v.as_bool()).unwrap_or(false);
         for k in 0..200 {
             // the static slot can be raced for once per process
@@ -810,6 +1327,12 @@ fn main() {
     par_cases(&mut r, &a, n, |i, r| run_round(r, seed, i, &sz, false));
     // last: one round on the process-wide static slot behind `emit::runtime::shared()`
     run_round(&mut r, seed, n, &sz, true);
+
+    // the shared slot through the root crate's accessors, raced once per child process
+    if !cfg!(miri) {
+        let children = args.get_u64("shared-children", args.n(96, 960));
+        run_shared_children(&mut r, &args, children, None);
+    }
 
     let code = r.finish();
     if code != 0 {
